@@ -1,9 +1,9 @@
 #!/bin/bash
-# usage: tools/allquick.sh "<seeds>" [tier]   - runs every registered check for each seed; prints one line per run
+# usage: tools/allquick.sh "<seeds>" [tier] ["<properties>"]   - runs every registered check for each seed; prints one line per run
 cd "$(dirname "$0")/.."
 tier=${2:-quick}
 for s in $1; do
-  for p in C01 C02 C03 C04 C05 C06 C07 C08 C09 C10 C11 C12 C13 C14 C15 C16 C17 C18 C19 C20; do
+  for p in ${3:-C01 C02 C03 C04 C05 C06 C07 C08 C09 C10 C11 C12 C13 C14 C15 C16 C17 C18 C19 C20}; do
     start=$(date +%s)
     out=$(VERIF_SEED=$s IXV_NO_EVIDENCE=1 /venv/bin/python -m ixv.run $p --tier $tier 2>&1)
     code=$?
